@@ -101,8 +101,21 @@ def _tol(tree, d):
 
 def _check_knn(t, tree, kind, qlon, qlat, D, k, radians, single, bad, info):
     """D = brute-force matrix rows for these queries"""
-    system = tree[1]
     coords = _coords(tree, qlon, qlat, radians)
+    coords = np.ascontiguousarray(coords, dtype=np.float64)
+    before = coords.copy()
+    for rep in range(2):  # the same caller-owned array is used for two consecutive queries
+        r_ = _check_knn_once(t, tree, kind, qlon, qlat, D, k, radians, single, bad, info + ("" if rep == 0 else " (same query array reused)"), coords)
+        if not np.array_equal(coords, before):
+            bad("c11:query-modifies-callers-array", "%s query(k=%d) modified the caller's coordinate array (e.g. %s -> %s)" % (info, k, before.ravel()[:2].tolist(), coords.ravel()[:2].tolist()))
+            return None
+        if r_ is None:
+            return None
+    return r_
+
+
+def _check_knn_once(t, tree, kind, qlon, qlat, D, k, radians, single, bad, info, coords):
+    system = tree[1]
     try:
         if single:
             d, ind = t.query(coords[0], k=k, in_radians=radians) if system == "spherical" else t.query(coords[0], k=k)
